@@ -13,3 +13,11 @@ json.dump({'_comment': 'reference inventory of error()/fatal() sites of cproc-qb
            'repo_head': os.popen('git -C /repo rev-parse --short HEAD').read().strip(), 'sites': sites},
           open(os.path.join(HERE, 'baseline', 'diagnostics.json'), 'w'), indent=0)
 print(len(sites), 'sites')
+
+# reference inventory of structure members (rule C03.c judges the members that exist on the reviewed tree; a member added later and not read yet enforces nothing, but breaks nothing either)
+names = set()
+for fid, (rec, fld) in prog.fields.items():
+    rn = rec.get('name') or 'anon@%s:%s' % (rec.get('dline'), rec.get('dcol'))
+    if rec.get('name'): names.add('%s.%s' % (rn, fld.get('name')))
+json.dump({'_comment': 'members of named structures/unions of cproc-qbe on the reviewed tree (rule C03.c)', 'members': sorted(names)}, open(os.path.join(HERE, 'baseline', 'fields.json'), 'w'), indent=0)
+print(len(names), 'members')
